@@ -59,6 +59,7 @@ class Gen:
         self.stores = {}
         self.label = 0
         self.usable = []  # ids that may be referenced as arguments
+        self.writers = set()  # side-effect writers: only their source node depends on them
 
     # ---- small helpers ---------------------------------------------------
     def coin(self, p):
@@ -166,7 +167,8 @@ class Gen:
         deps = []
         if self.nodes and self.coin(self.p["p_dep"]):
             k = self.rng.randrange(1, 3)
-            deps = self.rng.sample(range(len(self.nodes)), min(k, len(self.nodes)))
+            pool = [j for j in range(len(self.nodes)) if j not in self.writers]
+            deps = self.rng.sample(pool, min(k, len(pool)))
         return sorted(set(deps))
 
     def add_lit(self):
@@ -228,6 +230,7 @@ class Gen:
         w["ret"] = "val"
         name_holder = self.add_src(deps=[w["id"]])
         w["writes"] = name_holder["store"]
+        self.writers.add(w["id"])
         # the writer is consumed only through its store
         if w["id"] in self.usable:
             self.usable.remove(w["id"])
@@ -276,8 +279,8 @@ class Gen:
             # legal iff v is not already upstream of u
             if v in ds[u] or u == v:
                 continue
-            if self.nodes[v]["kind"] == "item" or self.nodes[u]["kind"] == "item":
-                continue
+            if self.nodes[v]["kind"] in ("item", "src") or self.nodes[u]["kind"] == "item" or u in self.writers:
+                continue  # (a dependency onto a source whose store nobody writes is not the documented idiom)
             world["late_deps"].append([u, v])
             ds = ref.deps_star(world)
 
